@@ -195,7 +195,15 @@ impl WeakLinkFilter {
             self.prev_weak.clear();
             self.delay_weak_streak.clear();
             self.weak_streak.clear();
-            self.probation_ticks.clear();
+            // A probation window in progress is not a stale weak flag: it only
+            // ever forces not-weak. This tick's verdict is not-weak, so it
+            // consumes one probation tick; dropping the rest would re-gate an
+            // idle link on the very next classified tick and make it wait a
+            // full PROBATION_INTERVAL_TICKS again.
+            self.probation_ticks.retain(|_, ticks| {
+                *ticks = ticks.saturating_sub(1);
+                *ticks > 0
+            });
             return ClassificationResult {
                 selected_delay_ms: 0,
                 estimated_max_delay_ms: 0,
@@ -257,6 +265,14 @@ impl WeakLinkFilter {
                     share_permille: 0,
                     threshold_permille: 0,
                 });
+                // Same as the bypass branch: a disconnected tick is a not-weak
+                // verdict, so it consumes one tick of a probation window in
+                // progress instead of cancelling the window.
+                if let Some(ticks) = self.probation_ticks.get(&conn.conn_id).copied()
+                    && ticks > 1
+                {
+                    next_probation.insert(conn.conn_id, ticks - 1);
+                }
                 continue;
             }
 
